@@ -104,3 +104,58 @@ func (r *Run) Merge(stdout []byte) ChildReport {
 	}
 	return cr
 }
+
+// ExportAndExit is used by a child process that accumulated its observations in a Run of its own: it
+// writes them as a report on stdout (for the parent's Merge) and exits 0.
+func (r *Run) ExportAndExit() {
+	p := NewReporter()
+	r.mu.Lock()
+	p.Eval(int(r.evaluations))
+	for k := range r.distinct {
+		p.Distinct(k)
+	}
+	for _, s := range r.samples {
+		p.Sample(s)
+	}
+	for k, v := range r.counters {
+		if k != "inconclusive" {
+			p.Count(k, v)
+		}
+	}
+	for k, v := range r.maxima {
+		p.Max(k, v)
+	}
+	for k, s := range r.sets {
+		for e := range s {
+			p.SetAdd(k, e)
+		}
+	}
+	for _, s := range r.inconclusive {
+		p.Inconclusive(s)
+	}
+	for _, s := range r.notes {
+		p.Note(s)
+	}
+	for _, v := range r.violations {
+		p.Violation(v.Signature, v.What, v.Witness)
+	}
+	r.mu.Unlock()
+	p.Done()
+	os.Exit(0)
+}
+
+// NewChildRun creates a Run inside a child process (same seed / tier as the parent, passed by environment).
+func NewChildRun(prop string) *Run {
+	r := NewRun(prop, "")
+	return r
+}
+
+// ChildEnvFor returns the environment entries that make a child's NewChildRun agree with this run.
+func (r *Run) ChildEnvFor() []string {
+	return []string{"VERIF_SEED=" + itoa64(r.Seed), "VERIF_TIER=" + r.Tier}
+}
+
+func itoa64(n int64) string {
+	b, _ := json.Marshal(n)
+	return string(b)
+}
